@@ -52,5 +52,6 @@ for k, (summary, needs) in N.items():
         m["summary"] = summary
         m["needs"] = needs
         m["breaks_property"] = k.split("-")[0]
+        m["ran_detection"] = ["git -C /repo apply seeded/%s/patch.diff" % k, "bin/check <ID> quick  (target property first; all other properties when it stayed silent)", "git -C /repo checkout -- ."]
         json.dump(m, open(p, "w"), indent=1)
 print("ok")
